@@ -8,7 +8,7 @@
 (*   op     delete | null | toString | toNumber | toArray | toObject |      *)
 (*          empty | dropElement | elemNumber | zero | negative | fraction |*)
 (*          idAlpha | idFloat | arrayLong | arrayShort | elemString |      *)
-(*          badString | crsUriObject | crsWkt | crsRefSys                   *)
+(*          badString | crsUriObject | crsWkt | crsRefSys | sameAsPrev      *)
 (* The property lists which documents MUST be rejected with an error       *)
 (* (missing CRS or tile matrices, wrong types, non-positive sizes,         *)
 (* non-integer ids; we read a missing required field as "incomplete");     *)
@@ -43,6 +43,7 @@ TmMut ==
     <<"cellSize", "delete", "reject">>, <<"cellSize", "toString", "reject">>, <<"cellSize", "zero", "reject">>, <<"cellSize", "negative", "reject">>,
     <<"scaleDenominator", "delete", "reject">>, <<"scaleDenominator", "toString", "reject">>,
     <<"scaleDenominator", "zero", "nopanic">>, <<"scaleDenominator", "negative", "nopanic">>,
+    <<"scaleDenominator", "sameAsPrev", "nopanic">>, <<"cellSize", "sameAsPrev", "nopanic">>,      \* two matrices tie in a value
     <<"pointOfOrigin", "delete", "reject">>, <<"pointOfOrigin", "toString", "reject">>, <<"pointOfOrigin", "toNumber", "reject">>,
     <<"pointOfOrigin", "elemString", "reject">>, <<"pointOfOrigin", "arrayLong", "nopanic">>, <<"pointOfOrigin", "arrayShort", "nopanic">>,
     <<"cornerOfOrigin", "toNumber", "reject">>, <<"cornerOfOrigin", "badString", "nopanic">>, <<"cornerOfOrigin", "delete", "nopanic">> }
